@@ -12,7 +12,7 @@ LEVEL = "exploration"
 SHARDS = {"quick": 16, "thorough": 16}
 RULE = (
     "Hypothesis draws a merge chain of 1-5 partition-returning memento functions: per level a dict str -> supported value (scalars incl. None, lists, dicts, numpy arrays, "
-    "pandas objects; keys with generated overlaps between levels), a staging type {InMemoryPartition over a dict, InMemoryPartition over a defaultdict (the module's docstring example), OnDiskPartition} and the provenance of the parent at the moment the child is computed "
+    "pandas objects; keys with generated overlaps between levels), a staging type {InMemoryPartition over a dict, InMemoryPartition over a defaultdict (the module's docstring example), OnDiskPartition, or - above level 0 - pass-through: the function returns, as it is, the partition the level below returned} and the provenance of the parent at the moment the child is computed "
     "{returned by the computing call, read back from disk (cold cache), read back from the memory cache}; backends {filesystem, filesystem+cache, memory}. "
     "Oracle: the overlay computed on plain dicts (own keys win, parent-only keys remain). For the value handed back by the first call, by a second call and by a call after reopening the store: "
     "list_keys() == expected keys (sorted), every get(k) equals the expected value loaded on its own, list_keys(_include_merge_parent=False) == own keys; the body runs once. "
@@ -52,6 +52,8 @@ def _check_part(out, part, expected, own, label, level):
                 out.violation("%s: level %d get(%r) = %r, overlay says %r" % (label, level, k, got, want), symptom="value-differs",
                               kind=type(part).__name__)
                 return
+        if own is None:   # a partition handed on as it is: only the public key set and values are demanded
+            return
         own_keys = list(part.list_keys(_include_merge_parent=False))
         if own_keys != sorted(own):
             out.violation("%s: level %d own keys %r, expected %r" % (label, level, own_keys, sorted(own)), symptom="own-keys-differ",
@@ -92,7 +94,10 @@ def execute(case, scratch):
                 elif prov == "cache" and case["backend"] == "fsc":
                     cached_parent = True
             overlay = dict(overlay)
-            overlay.update(lv["own"])
+            passthrough = lv["staging"] == "passthrough" and i > 0
+            if not passthrough:
+                overlay.update(lv["own"])
+            own_i = None if passthrough else lv["own"]
             fn = tfuncs.PARTS[i]
             rt.take()
             try:
@@ -110,8 +115,8 @@ def execute(case, scratch):
                 out.violation("level %d (%s, parent from %s): body ran %d times on the first call and %d times on the second" % (
                     i, lv["staging"], lv.get("parent_from"), len(runs1), len(runs2)), symptom="runs", staging=lv["staging"],
                     parent_from=lv.get("parent_from"))
-            _check_part(out, v1, overlay, lv["own"], "first call", i)
-            _check_part(out, v2, overlay, lv["own"], "second call", i)
+            _check_part(out, v1, overlay, own_i, "first call", i)
+            _check_part(out, v2, overlay, own_i, "second call", i)
             if case["backend"] != "mem" and lv.get("reopen_check", True):
                 env.set_env(d, {"c": mk()})
                 try:
@@ -124,8 +129,8 @@ def execute(case, scratch):
                     break
                 if [r for r in rt.take() if r[0] == "p%d" % i]:
                     out.violation("level %d: body ran again after reopening the store" % i, symptom="runs-after-reopen")
-                _check_part(out, v3, overlay, lv["own"], "after reopen", i)
-                _check_part(out, v1, overlay, lv["own"], "first-call value, later", i)
+                _check_part(out, v3, overlay, own_i, "after reopen", i)
+                _check_part(out, v1, overlay, own_i, "first-call value, later", i)
             if out.violations:
                 break
         out.nontrivial = (len(levels) >= 2 and overlap) or cached_parent
@@ -155,7 +160,7 @@ def strategy():
         n = draw(st.sampled_from([1, 2, 2, 3, 3, 4, 5]))
         levels = []
         for i in range(n):
-            lv = {"staging": draw(st.sampled_from(["impart", "impart", "impart_dd", "odpart"])),
+            lv = {"staging": draw(st.sampled_from(["impart", "impart", "impart_dd", "odpart"] + (["passthrough"] if i > 0 else []))),
                   "own": draw(st.dictionaries(keys, val, max_size=3)),
                   "reopen_check": draw(st.sampled_from([True, False]))}
             if i > 0:
